@@ -301,7 +301,7 @@ func newDoc(st Step) (*doc, error) {
 		d.in = gj
 		d0 := dumpGeometry(gj)
 		d.inCheck = func() error {
-			if ok, why := gen.SameBits(canon(st.G.V), canon(gj.Geometry())); !ok {
+			if ok, why := gen.SameBits(canon(st.G.V), canon(ownGeometry(gj))); !ok {
 				return fmt.Errorf("input *Geometry was modified by a marshal call: %s", why)
 			}
 			if d1 := dumpGeometry(gj); d1 != d0 {
@@ -428,7 +428,7 @@ func (d *doc) verify(x *decoded) error {
 			return fmt.Errorf("decoded *Geometry is nil")
 		}
 		want := canon(d.st.G.V)
-		if err := sameGeom(want, x.g.Geometry()); err != nil {
+		if err := decodedGeom(want, x.g); err != nil {
 			return err
 		}
 		if x.g.Type != typeName(want) {
